@@ -152,6 +152,9 @@ func chSameModuloTTL(a, b *dns.Msg) error {
 	if fa != fb {
 		return fmt.Errorf("flags %s vs %s", fa, fb)
 	}
+	if len(a.Question) != len(b.Question) {
+		return fmt.Errorf("%d question(s) vs %d", len(a.Question), len(b.Question))
+	}
 	if err := sameRRs("answer", a.Answer, b.Answer, true); err != nil && !strings.Contains(err.Error(), "ttl") {
 		return err
 	}
